@@ -388,6 +388,8 @@ def handle (op : String) (args : List String) : Option String :=
     match eop with
     | "renameInput" =>
       some s!"hyp={RenInOK x a b ti p} same={decide (deepGraph (ti.renameInput x a b) (renameInput x a b p) = (deepGraph ti p).map (renNodeIn x a b))}"
+    | "renameOutput" =>
+      some s!"hyp={RenOutOK x a b ti p} same={decide (deepGraph (ti.renameOutput x a b) (renameOutput x a b p) = (deepGraph ti p).map (renNodeOut x a b))}"
     | "renameCallable" =>
       let hyp := WF p && FreshFor x b p && (p.find? x).isSome && RenCallOK x b ti (eraseIds p)
       some s!"hyp={hyp} same={decide (deepGraph (ti.renameCallable x b) (eraseIds (renameCallable x b p)) = (deepGraph ti (eraseIds p)).map (renNodeCallable x b))}"
@@ -399,6 +401,7 @@ def handle (op : String) (args : List String) : Option String :=
     let ti ← pTypes types
     match eop with
     | "renameInput" => some (showGraph ((deepGraph ti p).map (renNodeIn x a b)))
+    | "renameOutput" => some (showGraph ((deepGraph ti p).map (renNodeOut x a b)))
     | _ => none
   | "graph", [prog, types] => do
     let p ← pProgram (prog.splitOn " ") []
